@@ -589,6 +589,9 @@ func runC11(r *core.Run) {
 	for _, L := range []int{0, 1, 2, 262144, 262145, 262146, 524288, 524290, 800000} {
 		cases = append(cases, c11Case{Kind: "quick", File: fileCase{L: L}})
 	}
+	// a prefix of the entries sums to exactly the threshold, more entries follow
+	cases = append(cases, c11Case{Kind: "auto", Names: append(thresholdNames(262144), "zz-one-more", "zz-and-another")},
+		c11Case{Kind: "auto", Names: append([]string{"aa-first"}, thresholdNames(262144)...)})
 	// auto-selecting builder straddling the shard threshold
 	cases = append(cases, c11Case{Kind: "auto", Names: thresholdNames(262144)}, c11Case{Kind: "auto", Names: thresholdNames(262145)})
 	sort.SliceStable(cases, func(i, j int) bool { return cases[i].File.W < cases[j].File.W })
